@@ -1,7 +1,8 @@
 """C16 — no data from a beacon node, relay or configuration can crash Vouch (spec/Robustness.tla).
 
 TLC enumerates the shape lattice of every entry point (Scen_Robustness); the drivers in
-overlay/verifdrivers/c16 build the concrete input of every shape and call the real code (defer/recover
+overlay/verifdrivers/c16 build the concrete input of every shape and call the real code END TO END
+(decode, then every consumer of the decoded value: spec actions Decoded / Use; defer/recover
 in a child goroutine, inside a child process so that panics in goroutines Vouch starts are observed
 too); TLC validates the recorded trace against Trace_Robustness, whose vocabulary contains the event
 Crash but no action producing it.
@@ -24,14 +25,16 @@ import vf
 PID = "C16"
 PKG = "./verifdrivers/c16"
 TEST = "TestVerifC16"
-ALL_EPS = ["execv2", "execv1", "execmutate", "graffiti", "builderbid", "proposalbest", "proposer", "attester", "aggregator",
+ALL_EPS = ["execv2", "execv1", "execmutate", "execdoc", "execservice", "graffiti", "builderbid", "proposalbest", "proposer", "attester", "aggregator",
            "syncmessenger", "syncaggregator", "mergeduties", "cacheevents", "submitclassify"]
 # the all-benign shape of every entry point: must end "ok", otherwise the harness does not reach the code
 BASELINE = {
     "execv2": {"version": "2", "top": "all", "relays": "one", "proposers": "account", "prelays": "one", "match": "y"},
     "execv1": {"version": "absent", "dflt": "full", "pc": "one", "brelays": "one", "match": "y"},
     "execmutate": {"base": "v2", "site": "0", "mut": "duplicate"},
-    "graffiti": {"file": "one", "fallback": "none", "loc": "plain"},
+    "execdoc": {"doc": "valid2"},
+    "execservice": {"doc": "valid2", "source": "file", "prior": "none", "addr": "good"},
+    "graffiti": {"file": "one", "fallback": "none", "loc": "plain", "use": "call"},
     "builderbid": {"strat": "best", "addr": "good", "bid": "valid", "second": "none", "pkcfg": "none"},
     "proposalbest": {"graffiti": "plain", "clen": "10", "nodeclient": "ok", "proposal": "ok", "n": "1"},
     "proposer": {"auction": "none", "ver": "deneb", "blinded": "n", "body": "valid", "unblind": "ok", "graffiti": "none"},
@@ -124,8 +127,9 @@ def scenarios(tier, scen_cfg):
     calls = [h[0] for h in hs if isinstance(h, list) and h and h[0].get("ev") == "Call"]
     calls.sort(key=lambda c: (c["ep"], json.dumps(c["shape"], sort_keys=True)))
     if tier == "quick":
-        # quick: the whole lattice of the small entry points, a seeded half of the two big
-        # configuration lattices and a seeded 30 % of the mutated documents (the thorough tier runs everything)
+        # quick: the whole lattice of the small entry points (including every whole-document shape, through the
+        # decoder and through the real block relay service), a seeded half of the two big configuration
+        # lattices and a seeded 30 % of the mutated documents (the thorough tier runs everything)
         rnd = random.Random(vf.seed())
         keep = []
         for c in calls:
